@@ -259,7 +259,14 @@ def check_length_tracker(ctx: Ctx):
             hd = wide[0]
             where = hd
             # a narrower handler listed before must not re-raise
-            nan_set = any(isinstance(x, ast.Assign) and U(x.targets[0]) == val and U(x.value) in ("math.nan", "np.nan", "float('nan')", "numpy.nan") for x in ast.walk(hd))
+            NANS = ("math.nan", "np.nan", "float('nan')", "numpy.nan")
+            nan_set = any(isinstance(x, ast.Assign) and U(x.targets[0]) == val and U(x.value) in NANS for x in ast.walk(hd))
+            if not nan_set and not any(isinstance(x, ast.Name) and x.id == val and isinstance(x.ctx, ast.Store) for x in ast.walk(hd)):
+                # NaN as the initial value: the only definitions that reach the try statement are NaN, and inside the try
+                # nothing but the analysis call itself assigns the recorded variable
+                reach = [d_ for d_ in hv.defs_reaching(val, hv.node_of(t) or hv.node_of(t.body[0])) if d_.stmt is not None]
+                inside = [x for b_ in t.body for x in ast.walk(b_) if isinstance(x, (ast.Assign, ast.AnnAssign, ast.AugAssign)) and val in {y.id for y in ast.walk(x) if isinstance(y, ast.Name) and isinstance(y.ctx, ast.Store)}]
+                nan_set = bool(reach) and all(isinstance(d_.stmt, (ast.Assign, ast.AnnAssign)) and d_.stmt.value is not None and U(d_.stmt.value) in NANS for d_ in reach) and inside == [st]
             reraise = any(isinstance(x, ast.Raise) for hh in t.handlers for x in ast.walk(hh))
             ok = nan_set and not reraise and not t.finalbody
             detail = f"handler assigns NaN: {nan_set}; re-raises: {reraise}"
